@@ -28,6 +28,16 @@ func ReplayPathProbe(p *PathProbe) (*run.Finding, int) {
 		return &run.Finding{Step: -1, Target: target, Rule: rule, Class: class, Detail: detail}
 	}
 	switch p.Kind {
+	case "parse":
+		s := string(model.Bytes(p.Joined))
+		var back datamodel.Path
+		if pn := model.Safe(func() { back = datamodel.ParsePath(s) }); pn != nil {
+			return fail("datamodel.ParsePath", "SplitStr", "panic", fmt.Sprintf("string %q: %v", s, pn)), 1
+		}
+		if fmt.Sprint(pathSegs(p.Split)) != fmt.Sprint(segStrings(back)) {
+			return fail("datamodel.ParsePath", "SplitStr", "different-segments", fmt.Sprintf("string %q: spec %q, implementation %q", s, pathSegs(p.Split), segStrings(back))), 1
+		}
+		return nil, 1
 	case "str":
 		path := pathOf(p.Path)
 		var s string
